@@ -63,6 +63,14 @@ theorem decodeNatural_code_tie (b : Bytes) :
           repeat' split
           all_goals first | rfl | omega
 
+/-! concrete instances (both sides computed): a 2-byte natural, a 4-byte natural, a truncated 4-byte form -/
+example : decode_buffer_decodeNatural [0x05, 0x01, 0xaa] = (0x41, 2) ∧
+    Dec.decodeNatural [0x05, 0x01, 0xaa] = some (0x41, 2, [0xaa]) := by decide
+example : decode_buffer_decodeNatural [0x03, 0x00, 0x80, 0x3f] = (0x0fe00000, 4) ∧
+    Dec.decodeNatural [0x03, 0x00, 0x80, 0x3f] = some (0x0fe00000, 4, []) := by decide
+example : decode_buffer_decodeNatural [0x03, 0x00, 0x80] = (0, 0) ∧ Dec.decodeNatural [0x03, 0x00, 0x80] = none := by
+  decide
+
 /-- the converse reading of `decodeNatural_code_tie`: the model's `Dec.decodeNatural` is determined by the
     generated function (`n == 0` ↦ `none`, otherwise value, width and `b[n:]`). -/
 theorem decodeNatural_model_eq (b : Bytes) :
@@ -87,9 +95,14 @@ theorem decodeReal_code_tie (b : Bytes) :
   | some r =>
     obtain ⟨u, n, rest⟩ := r
     obtain ⟨hn, hu, hl, rfl⟩ := decAux_decodeNatural_spec h
-    have hlen : ((b.length - (b.drop n).length : Nat) : Int) = n := by simp; omega
     rcases hn with rfl | rfl | rfl <;>
-      simp [decNatOf, decResOf, decAux_real u hu, decAux_shl2, hlen, F32.ofNatBits]
+      simp [decNatOf, decResOf, decAux_real u hu, decAux_shl2, F32.ofNatBits] <;> omega
+
+/-- the converse reading of `decodeReal_code_tie`: the model's `Dec.decodeReal` is determined by the generated
+    function (`n == 0` ↦ `none`, otherwise the value and `b[n:]`). -/
+theorem decodeReal_model_eq (b : Bytes) : Dec.decodeReal b = decResTo b (decode_buffer_decodeReal b) := by
+  rw [decodeReal_code_tie, decResTo_decResOf _ _ _ _ (fun _ _ h => decAux_decodeReal_rest h)]
+  cases Dec.decodeReal b <;> simp
 
 /-- `(buffer).decodeCoordinate` (decode/buffer.go) = `Dec.decodeCoordinate`; `n` = bytes consumed,
     `(0, 0)` for `none`. -/
@@ -102,10 +115,15 @@ theorem decodeCoordinate_code_tie (b : Bytes) :
   | some r =>
     obtain ⟨u, n, rest⟩ := r
     obtain ⟨hn, hu, hl, rfl⟩ := decAux_decodeNatural_spec h
-    have hlen : ((b.length - (b.drop n).length : Nat) : Int) = n := by simp; omega
     rcases hn with rfl | rfl | rfl <;>
-      simp [decNatOf, decResOf, decAux_coord1 u hu, decAux_coord2 u hu, decAux_f32_64, decAux_shl2, hlen,
-        F32.ofNatBits]
+      simp [decNatOf, decResOf, decAux_coord1 u hu, decAux_coord2 u hu, decAux_f32_64, decAux_shl2,
+        F32.ofNatBits] <;> omega
+
+/-- the converse reading of `decodeCoordinate_code_tie`: the model's `Dec.decodeCoordinate` is determined by the generated
+    function (`n == 0` ↦ `none`, otherwise the value and `b[n:]`). -/
+theorem decodeCoordinate_model_eq (b : Bytes) : Dec.decodeCoordinate b = decResTo b (decode_buffer_decodeCoordinate b) := by
+  rw [decodeCoordinate_code_tie, decResTo_decResOf _ _ _ _ (fun _ _ h => decAux_decodeCoordinate_rest h)]
+  cases Dec.decodeCoordinate b <;> simp
 
 /-- `(buffer).decodeZeroToOne` (decode/buffer.go) = `Dec.decodeZeroToOne`; `n` = bytes consumed,
     `(0, 0)` for `none`. -/
@@ -118,10 +136,15 @@ theorem decodeZeroToOne_code_tie (b : Bytes) :
   | some r =>
     obtain ⟨u, n, rest⟩ := r
     obtain ⟨hn, hu, hl, rfl⟩ := decAux_decodeNatural_spec h
-    have hlen : ((b.length - (b.drop n).length : Nat) : Int) = n := by simp; omega
     rcases hn with rfl | rfl | rfl <;>
-      simp [decNatOf, decResOf, decAux_real u hu, decAux_f32_120, decAux_f32_15120, decAux_shl2, hlen,
-        F32.ofNatBits]
+      simp [decNatOf, decResOf, decAux_real u hu, decAux_f32_120, decAux_f32_15120, decAux_shl2,
+        F32.ofNatBits] <;> omega
+
+/-- the converse reading of `decodeZeroToOne_code_tie`: the model's `Dec.decodeZeroToOne` is determined by the generated
+    function (`n == 0` ↦ `none`, otherwise the value and `b[n:]`). -/
+theorem decodeZeroToOne_model_eq (b : Bytes) : Dec.decodeZeroToOne b = decResTo b (decode_buffer_decodeZeroToOne b) := by
+  rw [decodeZeroToOne_code_tie, decResTo_decResOf _ _ _ _ (fun _ _ h => decAux_decodeZeroToOne_rest h)]
+  cases Dec.decodeZeroToOne b <;> simp
 
 /-- `isNaNOrInfinity` (decode/decode.go) = `Dec.isNaNOrInfinity`: `bits&0x7f800000 == 0x7f800000` is
     "exponent field = 255". -/
